@@ -242,6 +242,16 @@ fn game_server(name: &str, shape: &str) -> Value {
         "ready-moved" => ("Ready", "2001:db8::20", json!([{"name": "game", "port": 7100}, {"name": "query", "port": 7101}])),
         "ready-no-ports" => ("Ready", "10.0.0.1", json!([])),
         "ready-bad-address" => ("Ready", "node-7.internal", json!([{"name": "default", "port": 7001}])),
+        // still Ready at the same address, but most of its metadata has been taken off: one label left, no
+        // annotation, one counter with another count, no list
+        "ready-lean" => {
+            return json!({
+                "apiVersion": "agones.dev/v1", "kind": "GameServer",
+                "metadata": {"name": name, "namespace": "default", "uid": format!("uid-{name}"), "labels": {"mode": name}},
+                "spec": {"container": "mc"},
+                "status": {"address": "10.0.0.1", "ports": [{"name": "default", "port": 7001}], "state": "Ready", "counters": {"players": {"count": 5, "capacity": 10}}},
+            });
+        }
         other => common::machinery(&format!("shape {other}")),
     };
     json!({
@@ -401,6 +411,14 @@ fn run_history(spec: &Spec, counters: &(AtomicU64, AtomicU64)) -> Vec<(String, S
                                 break;
                             }
                         }
+                        // a label, annotation, counter or list that the object no longer has can only come from
+                        // an earlier version of it (these are all the keys any shape of the mock ever carries)
+                        for k in ["agones.dev/fleet", "mode", "note", "players", "rooms", "tags", "empty"] {
+                            if !meta.contains_key(k) && g[0].meta.contains_key(k) {
+                                v.push(("stale-metadata".into(), format!("after step {step} ({ev}): '{name}' is offered with metadata {k:?} = {:?}, which the GameServer no longer carries", g[0].meta.get(k))));
+                                break;
+                            }
+                        }
                     }
                 }
             }
@@ -521,6 +539,7 @@ fn alphabet() -> Vec<Ev> {
         }
         v.push(Ev::Delete { name: name.into() });
     }
+    v.push(Ev::Apply { name: "a".into(), shape: "ready-lean".into() });
     v.push(Ev::Bookmark);
     v.push(Ev::CloseWatch);
     v.push(Ev::Gone);
@@ -633,6 +652,9 @@ pub fn run(cli: Cli) -> ! {
             vec![a("ready-moved"), a("ready-no-ports"), a("ready")],
             vec![a("allocated"), a("shutdown"), a("ready-moved")],
             vec![b("ready"), Ev::Bookmark, Ev::CloseWatch],
+            vec![a("ready"), a("ready-lean"), a("allocated")],
+            vec![a("ready"), Ev::GoneAndApply { name: "a".into(), shape: "ready-lean".into() }, a("ready")],
+            vec![a("ready-moved"), Ev::CloseWatch, a("ready-lean")],
         ] {
             specs.push(Spec { initial: initials[1].clone(), history: h, paged: false });
         }
